@@ -924,11 +924,15 @@ class CodeBuilder:
         else:
             if (
                 self.is_nailed
-                and self.format_name != "dict"
+                and (
+                    self.format_name != "dict"
+                    or not is_dataclass_dict_mixin_subclass(self.cls)
+                )
                 and self.encoder is None
                 and self.dialect is None
             ):
-                # this method is compiled on demand for the annotated class,
+                # this method is compiled on demand for the annotated class
+                # (a format of its own, or a dataclass without the mixin),
                 # an instance of a subclass must not be packed by the method
                 # it inherits
                 self.ensure_object_imported(self.cls, "_method_owner")
